@@ -1195,14 +1195,15 @@ class HistogramBase(abc.ABC):
             if isinstance(other, np.integer) and self.dtype.kind in "iu":
                 # Products that the common (possibly compact) integer type cannot hold are
                 # formed in 64 bits, as with a python int (instead of wrapping around)
-                limit = np.iinfo(np.promote_types(self.dtype, other.dtype)).max
+                common = np.promote_types(self.dtype, other.dtype)
                 factor = abs(int(other))
                 biggest = max(
                     int(np.abs(self._frequencies).max(initial=0)) * factor,
                     int(np.nan_to_num(np.abs(self._missed).astype(float)).max(initial=0)) * factor,
                     int(self._errors2.max(initial=0)) * factor * factor,
                 )
-                if biggest > limit:
+                # Signed with unsigned 64 bits have no common integer type at all
+                if common.kind not in "iu" or biggest > np.iinfo(common).max:
                     other = int(other)
             array = np.asarray(other)
             scalar = cast(float, other)
